@@ -239,9 +239,10 @@ void Local::setup_c13(World &w) {
     ext = which ? "list" : ""; addfile(which ? ".qmail-list" : ".qmail", bodies[bi], fmodes[fi]); homemode = hmodes[hi]; dryrun = dr == 0;
     char b[100]; snprintf(b, sizeof b, "perm file=%o home=%o body#%d %s ext=%s", fmodes[fi], hmodes[hi], bi, dryrun ? "-n" : "real", ext.c_str()); casename = b;
   } else if (fam == "instr") {
-    static const char *ins[] = {"# comment", "", "|exit 0", "|exit 99", "|exit 100", "|exit 111", "|exit 64", "|exit 1", "./mbox", "./maildir/", "&fwd@x.example", "fwd2@y.example", "+list", "|exit 0  \t"};
+    static const char *ins[] = {"# comment", "", "|exit 0", "|exit 99", "|exit 100", "|exit 111", "|exit 64", "|exit 1", "./mbox", "./maildir/", "&fwd@x.example", "fwd2@y.example", "+list", "|exit 0  \t", "./maildir/ \t", "./mbox  "};   /* trailing blanks are ignored on every kind of line */
     int n = 1 + w.ex->choose_n(cfg.geti("thorough") ? 4 : 3, BK_FREE); std::string body; casename = "instr";
-    for (int i = 0; i < n; i++) { int c = w.ex->choose_n(14, BK_FREE); body += std::string(ins[c]) + "\n"; casename += " [" + std::string(ins[c]) + "]"; }
+    for (int i = 0; i < n; i++) { int c = w.ex->choose_n(16, BK_FREE); body += std::string(ins[c]) + "\n"; casename += " [" + std::string(ins[c]) + "]"; }
+    if (w.ex->choose_n(2, BK_FREE)) { body.pop_back(); casename += " (no newline at the end of the file)"; }   // dot-qmail(5) does not require one; an empty last line is then no line at all
     int variant = w.ex->choose_n(3, BK_FREE);   // 0: -n   1: real   2: real with x bit
     dryrun = variant == 0; addfile(".qmail", body, variant == 2 ? 0700 : 0600); ext = ""; casename += dryrun ? " -n" : variant == 2 ? " real,x-bit" : " real";
   } else if (fam == "qmailio") {
